@@ -227,8 +227,12 @@ func propExhaustive(c ExhCase, st *exhStats) *vlib.Failure {
 					case missed != 0:
 						what = "missed"
 					}
-					f := vlib.Failf(what+"-hit", "exhaustive index %d (%v) shape %d, mode %s: query %s returns %v, reference %v",
-						c.Index, exhDescribe(c.Index), si, md.name, q, e.idsOfMask(got), e.idsOfMask(r.lo))
+					twin := ""
+					if c.Merged {
+						twin = ", written through the offline writer (merged twin)"
+					}
+					f := vlib.Failf(what+"-hit", "exhaustive index %d (%v%s) shape %d, mode %s: query %s returns %v, reference %v",
+						c.Index, exhDescribe(c.Index), twin, si, md.name, q, e.idsOfMask(got), e.idsOfMask(r.lo))
 					return e.classify(q, md, mi, f, ctx)
 				}
 			}
